@@ -55,6 +55,7 @@ func init() {
 		}
 		root := common.NewRand(seed)
 		u := common.Small
+		u.Extreme = 6 // created_at, since and until at the ends of int64
 		for i := 0; i < n; i++ {
 			r := root.Fork(uint64(i))
 			var c c02Case
